@@ -11,6 +11,8 @@ V = [
     {}, {"a": 1}, {"a": True}, {"a": 1.0}, {"a": "x"}, {"a": None}, {"b": 1}, {"ab": 1}, {"c": 1},
     {"a": 1, "b": 2}, {"a": 1, "b": "x"}, {"a": 1, "b": 2, "c": 3}, {"a": {"a": 1}}, {"a": [1]},
     {"a b": 1, "a_b": 2}, {"class": 1}, {"a": 2, "b": 1}, {"1": 1},
+    # the empty member name, alone and after another member; numbers far from the small keyword parameters
+    {"": 1}, {"a": 1, "": 2}, 1000000000.25, 30000000001, 4503599627370497, -1000000000.25, "a" * 40, list(range(12)),
 ]
 
 # a smaller probe set for histories / schedules (one witness per JSON type + lookalikes)
@@ -59,5 +61,6 @@ V_OBJ = [
     {"a": 1, "b": 2, "c": 3}, {"a": 1, "c": 3}, {"c": 1, "a": 2, "b": 3}, {"d": 1},
     [1, "a"], [1, "a", 2], [1, "a", "b"], [1], ["a", 1], [[1.5, 2], []], [1, True], [1, True, None], [3, 1], [1, 1],
     [{"a": 1, "b": "s"}], [{"inner": {"w": "x"}}],
+    [1, 2.5], [{"class": 1, "a b": "x"}], [[1, 2], [3.5]], {"a": 1, "": 2, "sx": "v"}, {"zz": 3, "": 1},
     {"num": 1}, {"num": 2, "base": {"a": 5}, "sub": {"class": 1}}, {"num": 1.5, "sub": {}}, {"n": 3, "o": {"x y": 2}}, {"n": 3, "o": {}}, {"n": -1},
 ]
